@@ -10,7 +10,7 @@ import ast
 
 from ..engine.srcmodel import AnalysisError, Model, dotted, stmt_text, walk_local
 from ..engine.report import RuleResult
-from .common import finding
+from .common import finding, operand_helper_calls
 from .rounding import builtin_round_sites, bound_symbols, half_up_helper, helper_problem
 
 
@@ -201,10 +201,23 @@ def r06_4(ctx, counts: dict[str, int]) -> RuleResult:
         'divisor and dividend (`q * b == a`, `a % b == 0`, divmod). Without it every exact '
         'negative quotient is off by one (-6 idiv 2 = -2).')
     f = _operator_func(ctx, 'idiv')
-    if not any(isinstance(x, ast.BinOp) and isinstance(x.op, ast.FloorDiv) for x in walk_local(f.node)):
+    def has_floordiv(g) -> bool:
+        return any(isinstance(x, ast.BinOp) and isinstance(x.op, ast.FloorDiv)
+                   for x in walk_local(g.node))
+    operands = {x.id for n_ in walk_local(f.node) if isinstance(n_, ast.Assign)
+                and isinstance(n_.value, ast.Call)
+                and dotted(n_.value.func).split('.')[-1] in ('get_operands', 'get_argument')
+                for t in n_.targets for x in (t.elts if isinstance(t, ast.Tuple) else [t])
+                if isinstance(x, ast.Name)}
+    via = [h for _c, h, _b in operand_helper_calls(ctx.model, f, operands) if has_floordiv(h)]
+    if not has_floordiv(f) and not via:
         res.instances.append(f'{f.key}: no // in the implementation (truncating division used)')
         res.ok()
+        counts['idiv_corrections'] = 1
         return res
+    if via:
+        res.notes.append(f'the floor division is performed by {sorted(h.key for h in via)}; the '
+                         f'correction is looked for in {f.key}')
     cfg = CFG(f.node)
     facts = branch_facts(cfg)
     n = 0
@@ -227,33 +240,18 @@ def r06_4(ctx, counts: dict[str, int]) -> RuleResult:
                              f'is negative (facts: {sorted(facts[nd.id])[:4]}), also when the '
                              f'division is exact: -6 idiv 2 gives -2 instead of -3'))
     counts['idiv_corrections'] = n
+    if via and not n:
+        raise AnalysisError(f'{f.key}: the floored quotient comes from '
+                            f'{sorted(h.key for h in via)} and no `+ 1` correction is located in '
+                            f'the operator: the truncation logic is not in a recognised form')
     return res
 
 
-def r06_5(ctx, counts: dict[str, int]) -> RuleResult:
-    """mod: the result has the sign of the dividend"""
-    res = RuleResult(
-        'R06.5', 'MOD-SIGN-OF-DIVIDEND',
-        'op:numeric-mod returns a result with the sign of the dividend; Python\'s % on int and '
-        'float follows the divisor. In the evaluate method of mod every `%` on the evaluated '
-        'operands has both operands wrapped in abs() (the sign is applied afterwards), or is '
-        'math.fmod, or sits in the true branch of a test that the operands have the same sign '
-        '(`a * b >= 0`), or both operands are established to be Decimal (whose % follows the '
-        'dividend).')
-    f = _operator_func(ctx, 'mod')
-    operands: set[str] = set()
-    for n in walk_local(f.node):
-        if isinstance(n, ast.Assign) and isinstance(n.value, ast.Call) and \
-                dotted(n.value.func).split('.')[-1] in ('get_operands', 'get_argument'):
-            for t in n.targets:
-                for x in (t.elts if isinstance(t, ast.Tuple) else [t]):
-                    if isinstance(x, ast.Name):
-                        operands.add(x.id)
+def _mod_scope(res: RuleResult, f, operands: set[str], n_ops: int) -> tuple[int, bool]:
     parents: dict[int, ast.AST] = {}
     for a in ast.walk(f.node):
         for c in ast.iter_child_nodes(a):
             parents[id(c)] = a
-    n_ops = 0
     for x in walk_local(f.node):
         if not (isinstance(x, ast.BinOp) and isinstance(x.op, ast.Mod)):
             continue
@@ -283,10 +281,43 @@ def r06_5(ctx, counts: dict[str, int]) -> RuleResult:
             res.fail(finding('R06.5', f, x, f'{stmt_text(x)[:30]} follows the divisor',
                              f'`{stmt_text(x)[:40]}` applies Python\'s % to the raw operands: for '
                              f'int and float the result takes the sign of the divisor '
-                             f'(5 mod -3 = 1 instead of 2, -7.5e0 mod 2 = 0.5 instead of -1.5)'))
+                             f'(5 mod -3 = 1 instead of 2, -7.5e0 mod 2 = 0.5 instead of -1.5) '
+                             f'and a later correction by the divisor is not exact for doubles'))
+    fmod = any(isinstance(c, ast.Call) and dotted(c.func) == 'math.fmod'
+               for c in walk_local(f.node))
+    return n_ops, fmod
+
+
+def r06_5(ctx, counts: dict[str, int]) -> RuleResult:
+    """mod: the result has the sign of the dividend"""
+    res = RuleResult(
+        'R06.5', 'MOD-SIGN-OF-DIVIDEND',
+        'op:numeric-mod returns a result with the sign of the dividend; Python\'s % on int and '
+        'float follows the divisor. In the evaluate method of mod every `%` on the evaluated '
+        'operands has both operands wrapped in abs() (the sign is applied afterwards), or is '
+        'math.fmod, or sits in the true branch of a test that the operands have the same sign '
+        '(`a * b >= 0`), or both operands are established to be Decimal (whose % follows the '
+        'dividend).')
+    f = _operator_func(ctx, 'mod')
+    operands: set[str] = set()
+    for n in walk_local(f.node):
+        if isinstance(n, ast.Assign) and isinstance(n.value, ast.Call) and \
+                dotted(n.value.func).split('.')[-1] in ('get_operands', 'get_argument'):
+            for t in n.targets:
+                for x in (t.elts if isinstance(t, ast.Tuple) else [t]):
+                    if isinstance(x, ast.Name):
+                        operands.add(x.id)
+    # the operator's own body, plus one level of helper functions that receive the operands
+    scopes: list[tuple] = [(f, operands)]
+    for _call, h, binding in operand_helper_calls(ctx.model, f, operands):
+        scopes.append((h, set(binding)))
+    n_ops = 0
+    fmod = False
+    for g, names in scopes:
+        n_ops, fm = _mod_scope(res, g, names, n_ops)
+        fmod = fmod or fm
     counts['mod_ops'] = n_ops
-    if n_ops < 1 and not any(isinstance(c, ast.Call) and dotted(c.func) == 'math.fmod'
-                             for c in walk_local(f.node)):
+    if n_ops < 1 and not fmod:
         raise AnalysisError('mod operator: neither % nor math.fmod located')
     return res
 
